@@ -87,6 +87,14 @@ Theorem should_run_wiring : forallb (fun b => b) gen_wiring = true.
 Proof. exact wiring_all_true. Qed.
 Print Assumptions should_run_wiring.
 
+(* no value read from the recorded execution history of the runners (last_service_start / last_service_end,
+   record_atomic_service_execution) reaches the result of calculate_time_slot, is_runner_in_time_slot or
+   can_run_atomic_service (data-flow fact read off the AST): the theorems above, stated over runner ids,
+   therefore speak about active-runner lists with ARBITRARY histories, overrunning ones included *)
+Theorem authorisation_ignores_execution_history : forallb (fun b => b) gen_history_free = true.
+Proof. exact history_free_all_true. Qed.
+Print Assumptions authorisation_ignores_execution_history.
+
 (* ---- binary64: the statement as executed ---- *)
 (* full strength (Model/AtomicSpec.v): at_most_one_authorised_b64 — at most one authorised, in doubles,
    for the generated operation order *)
